@@ -22,6 +22,8 @@ import Nlmodel.Proofs.Lemmas.Div6Example
 import Nlmodel.Proofs.Lemmas.Div7Example
 import Nlmodel.Proofs.Lemmas.Div8Example
 import Nlmodel.Proofs.Lemmas.LimitExample
+import Nlmodel.Proofs.Lemmas.LimitRun2
+import Nlmodel.Proofs.Lemmas.DivTextLimit
 namespace Nl
 namespace C01
 
@@ -697,6 +699,22 @@ theorem C01_ordinary_index_error_is_definitional :
       Sim6.idx_src6Top hc 10 hne Sim6.idx_not_limit
     rw [Sim6.idx_eval] at this
     exact this
+
+/-- TEXT-level instances of the divergence theorems (second audit, item d): the loop `zolang ja { }` exhausts every budget; the
+    recursion `functie f() { f() }; f()` diverges in the semantics and on the machine REACHES THE LIMIT (proved with an invariant of the
+    recursion, not by evaluating 65 534 frames), which is the second disjunct of `C01_heap_and_calls_divergence` -/
+theorem C01_divergence_text_instances :
+    (∀ b, evalText CharClass.ascii b Sim6.loopSrc = .budget) ∧
+    (∀ F, specText CharClass.ascii F Sim6.recSrc = .budget) ∧ TextHitsLimit CharClass.ascii Sim6.recSrc :=
+  ⟨Sim6.loop_text_diverges, Sim6.rec_specText, Sim6.rec_text_hitsLimit⟩
+
+/-- the converse applies to an ordinary index error raised INSIDE A CALL as well (second audit, item c): `functie f() { [1][5] }; f()`
+    answers an index error, never reaches the limit (decided on the run by the verified `endsNoLimit`), hence the definitional answer
+    is the index error too -/
+theorem C01_index_error_inside_a_call_is_definitional :
+    evalText CharClass.ascii 20 Sim6.callIdxSrc = .error .index [] ∧ ¬ TextHitsLimit CharClass.ascii Sim6.callIdxSrc ∧
+    ∃ F, specText CharClass.ascii F Sim6.callIdxSrc = .error .index [] ∨ specText CharClass.ascii F Sim6.callIdxSrc = .unspec :=
+  ⟨Sim6.callIdx_eval, Sim6.callIdx_not_limit, Sim6.call_then_index_error_is_definitional⟩
 
 /-- non-vacuity: programs that really diverge in the definitional semantics (proved for every fuel): a loop whose variable
     flips between 0 and 1, a function that calls itself forever, a returned nested literal that loops -/
